@@ -161,7 +161,9 @@ type JSONDoc struct {
 
 var jsonKeys = []string{"id", "url", "href", "links", "data", "items", "next", "meta", "image", "src", "a", "b", "results", "payload", "https://decoy.example.com/a-key-is-not-a-value.png", "é", "with space", "q\"uote"}
 var jsonDecoys = []string{"hello", "", "http", "https://", "/relative/path.png", "example.com/no-scheme.png", "mailto:someone@example.com",
-	"{not json", "[1,2", "{}", "[]", "{\"n\":1}", "text with https://inline.example.com/decoy inside", "héllo ☃ 😀", "line1\nline2\ttab", "a\\b", "<b>&amp;</b>", "ftp://files.example.com/pub/x.iso"}
+	"{not json", "[1,2", "{}", "[]", "{\"n\":1}", "text with https://inline.example.com/decoy inside", "héllo ☃ 😀", "line1\nline2\ttab", "a\\b", "<b>&amp;</b>", "ftp://files.example.com/pub/x.iso",
+	// white space only (serialised DOM / rich-text trees are full of these), padded JSON-looking text
+	"      ", "\n        ", "\t\t\t\t\t\t", "  [\"x\"]  ", " {\"k\":\"v\"}\n"}
 var jsonLits = []string{"0", "-1", "3.14", "1e9", "12345678901234567890", "true", "false", "null"}
 
 type jsonGenState struct {
